@@ -22,6 +22,7 @@ EXPLANATION = (
     ' R04.6: the offsets that cut the inlined assignment out come from a line table of the substituted text.'
 )
 EXPLANATION += ' R04.8: the whole-line rewrite of an inlined call is refused for a second call in the same logical line.'
+EXPLANATION += " R04.9: in the anchored modules and the shared text utilities no source text is cut with str.splitlines() (it breaks at form feed, \x1c-\x1e, \x85, U+2028/9; rope's and the ast's line numbers count \n only)."
 ASSUMPTIONS = ["alias tracking is flow-insensitive (x = self.attr makes x an alias for the whole method)",
                "dict()/list()/set()/.copy()/sorted()/slicing create copies"]
 
@@ -218,7 +219,29 @@ def _check_body(ctx, res) -> None:
                         f"`{ast.unparse(c)}` takes the cut offsets from `{ast.unparse(src) if src is not None else ast.unparse(recv)}`, a line table of the ORIGINAL module, and applies "
                         "them to the text in which the reads have already been replaced: when a read of the variable stands before its assignment the "
                         "text has shifted, part of the definition is left behind and neighbouring code is cut away", function=g.qualname)
-    res.floor("R04.6", "line-table lookups feeding the cut in _inline_variable", n6, 2)
+    if sliced & new_texts:
+        res.floor("R04.6", "line-table lookups feeding the cut in _inline_variable", n6, 2)
+    else:
+        # the assignment is cut out in another way (a list of lines with the assignment's lines deleted, ...): no offsets are
+        # carried from one text to another; what remains of the rule is that the text handed back derives from the substituted one
+        def closure(names, depth=0):
+            out = set(names)
+            if depth < 4:
+                for x in walk_local(iv.node):
+                    if isinstance(x, ast.Assign) and any(isinstance(t, ast.Name) and t.id in out for t in x.targets):
+                        out |= {y.id for y in ast.walk(x.value) if isinstance(y, ast.Name)}
+                if out != set(names):
+                    return closure(out, depth + 1)
+            return out
+        rets = [r for r in walk_local(iv.node) if isinstance(r, ast.Return) and r.value is not None]
+        for k, r in enumerate(rets, 1):
+            used = closure({y.id for y in ast.walk(r.value) if isinstance(y, ast.Name)})
+            ok = bool(used & new_texts)
+            res.add("R04.6", f"_inline_variable|returned-text-is-the-substituted-text#{k}", ok, f"{iv.unit.rel}:{r.lineno}",
+                    "the text handed back derives from the text in which the reads were replaced" if ok else
+                    f"`{ast.unparse(r)[:60]}` hands back text that does not derive from the result of rename_in_module: the reads of the variable are not replaced",
+                    function=iv.qualname)
+        res.analysed["R04.6:form"] = "no slice of the substituted text; cut offsets not applicable"
 
     # ---- R04.7 which imports are added is never decided on the module's text lines
     common.import_presence_rule(ctx, res, "R04.7")
@@ -277,3 +300,8 @@ def _one_rewrite_per_line_rule(ctx, res) -> None:
 def check(ctx, res) -> None:
     _check_body(ctx, res)
     _one_rewrite_per_line_rule(ctx, res)
+    from .common import line_model_rule as _lm
+
+    _lm(ctx, res, "R04.9", ('rope.refactor.inline', 'rope.refactor.functionutils', 'rope.refactor.move', 'rope.refactor.importutils'))
+
+
